@@ -170,9 +170,12 @@ Definition view_C06_gen (want_target : bool) (c : ctx) (items : list item) : vie
                      toks_list_eqb (map print_gparam (p_items (g_params (i_gen im))))
                                    (map print_gparam (trait_impl_params (p_items (g_params (t_gen t))))) &&
                      toks_eqb (first_where_toks (i_gen im)) (c06_bound a ca (t_name t) (t_gen t)) &&
+                     (* ... followed by the trait's own where predicates *)
+                     toks_list_eqb (map wp_toks (tl (where_items (i_gen im)))) (map wp_toks (where_items (t_gen t))) &&
                      toks_eqb (match i_trait im with Some x => x | None => [] end) ([TId (t_name t)] ++ trait_args (t_gen t)) &&
                      only_impl_fns im && c06_methods a ca (trait_sigs t) (impl_fns im))
-                    ([first_where_toks (i_gen im)] ++ map print_gparam (p_items (g_params (i_gen im))) ++ map (fun '(_, _, b) => b) (impl_fns im))
+                    ([first_where_toks (i_gen im)] ++ map print_gparam (p_items (g_params (i_gen im))) ++ map wp_toks (tl (where_items (i_gen im))) ++
+                     map (fun '(_, _, b) => b) (impl_fns im))
           else na
       | None => na
       end
